@@ -16,27 +16,14 @@ from vlib import VERIF, REPO, BUILD
 
 F2_KEY = "pubsub:sample-outlives-subscriber-chunk-reused"
 
-# Candidate defects of /repo found by this check and reported to the lead, who decides between a
-# fix: commit in /repo and an entry in known_findings.json (matched by the same key).  Until then the
-# check prints CANDIDATE-DEFECT for them (with a replay file) instead of VIOLATION.  Remove a key
-# here as soon as it is adjudicated; anything not listed is a VIOLATION.
-PENDING_CANDIDATES = {
-    "pubsub:expired-connection-leaked": ("C01",
-        "F1: receiver.rs receive_from_to_be_removed_connections uses the index of .skip(k).enumerate() un-offset for "
-        "to_be_removed_connections.remove(index): with three expired connections (first still borrowed, second and third empty in the same "
-        "receive call) the borrowed one is dropped from the list; once its sample is released it is never removed from connection_storage "
-        "(connection file and storage slot stay until the Subscriber is dropped). history (S=1 P=3 B=1 M=1 E=3): sc; pc; pc; pc; su 0; sn 0; sn 1; sn 2; "
-        "pd 0; pd 1; pd 2; rx; rx; rx; rd 1; rd 2; rx; rd 0; rx -> none with one connection left"),
-    "pubsub:delivered-sample-lost-subscriber-not-yet-connected": ("C01",
-        "send reports a recipient, but when the Publisher is dropped before the registered Subscriber's next update_connections/receive/has_samples "
-        "the connection (only its sender side attached) is destroyed together with the samples in it. history (1x1): sc; pc; sn 0 -> n1; pd 0; rx 0 -> none"),
-    "pubsub:expired-connection-buffer-discards-data": ("C01",
-        "to_be_removed_connections full (capacity max(subscriber_expired_connection_buffer, max_borrowed)): an expired connection that still has "
-        "undelivered samples is removed with a warn!, the samples are lost"),
-    "pubsub:expired-connection-buffer-exceeded-panic": ("C08",
-        "Subscriber::receive / has_samples / update_connections panic (fatal_panic 'Expired connection buffer exceeded ... still borrowed') when more "
-        "publishers than max(subscriber_expired_connection_buffer, max_borrowed) disappear while the subscriber holds a sample of each"),
-}
+# Known findings of this family (adjudicated by the lead, listed in /verif/known_findings.json with
+# exactly these keys; the driver derives the key from the failing history):
+#   C02 pubsub:sample-outlives-subscriber-chunk-reused          canary of a Sample whose Subscriber was dropped changed (F2)
+#   C01 pubsub:delivered-sample-lost-subscriber-not-yet-connected  connection with data destroyed, receiver side never attached
+#   C01 pubsub:expired-connection-buffer-discards-data             expired connection with data removed because the buffer is full
+#   C08 pubsub:expired-connection-buffer-exceeded-panic            fatal_panic of prepare_connection_removal (disappears with a larger buffer)
+# F1 (pubsub:expired-connection-leaked) is fixed in /repo (81d4165); its history is a regression below.
+# Every other reference mismatch is a VIOLATION.
 
 MODEL_FILES = ["coq/model/Base.v", "coq/model/Conn.v", "coq/model/Port.v", "coq/extract/C01.v", "ocaml/c01/driver.ml",
                "harness/g3/c01/src/main.rs", "harness/g3/c01/src/gen.rs", "harness/g3/c01/Cargo.toml",
@@ -119,7 +106,7 @@ REGRESSIONS = [
     # (what, variant, cfg, ops) -- minimised histories of the findings; they run first
     ("F2 sample outlives its subscriber", "local", "1,1,1,1,0,0,2", "pc_2_0_- sc_-_- sn_0 rx_0 sd_0 pu_0 ln_0"),
     ("F2 sample outlives its subscriber", "ipc", "1,1,1,1,0,0,2", "pc_2_0_- sc_-_- sn_0 rx_0 sd_0 pu_0 ln_0"),
-    ("F1 expired connection leaked", "ipc", "1,3,1,1,0,0,3",
+    ("F1 (fixed by 81d4165): three expired connections are cleaned up", "ipc", "1,3,1,1,0,0,3",
      "sc_-_- pc_1_0_- pc_1_0_- pc_1_0_- su_0 sn_0 sn_1 sn_2 pd_0 pd_1 pd_2 fc rx_0 rx_0 rx_0 fc rd_1 rd_2 rx_0 fc rd_0 rx_0 fc"),
     ("F1 control: two expired connections are cleaned up", "ipc", "1,3,1,1,0,0,3",
      "sc_-_- pc_1_0_- pc_1_0_- su_0 sn_0 sn_1 pd_0 pd_1 rx_0 rx_0 rd_1 rx_0 fc rd_0 rx_0 fc"),
@@ -319,34 +306,20 @@ def run(ctx):
         for lbl, cmd, rc, tail in r["failed_jobs"][:3]:
             ctx.violation("correspondence job failed (harness or driver crashed): " + str(lbl), {"cmd": cmd, "rc": rc, "tail": tail}, no_input=True)
     # ---- this property's reference mismatches
-    known_keys = {k.get("key") for k in ctx.known if k.get("status", "known") == "known"}
-    fixed_keys = {k.get("key") for k in ctx.known if k.get("status") == "fixed"}
     counts = {}
     for lbl, cmd, line in mine:
         m = re.search(r" key=(\S+)", line)
         key = m.group(1) if m else None
         counts[key] = counts.get(key, 0) + 1
     ctx.cov["spec_mismatch_lines_by_key"] = counts
-    candidates = {}
     nviol = 0
     for key, n in sorted(counts.items(), key=lambda kv: str(kv[0])):
         f = first.get(("spec", key), {})
         body = {"history": f.get("history", []), "harness_cmd": f.get("cmd"), "mismatch": f.get("line"),
                 "how_to_rerun": "%s | %s" % (f.get("cmd"), driver), "mismatch_lines_with_this_key": n}
-        if key in PENDING_CANDIDATES and key not in known_keys and key not in fixed_keys:
-            prop, what = PENDING_CANDIDATES[key]
-            d = os.path.join(VERIF, "replays", pid)
-            os.makedirs(d, exist_ok=True)
-            path = os.path.join(d, "candidate-" + key.replace(":", "-") + ".json")
-            body.update({"property": pid, "key": key, "what": what, "status": "candidate, reported to the lead, not adjudicated"})
-            open(path, "w").write(json.dumps(body, indent=1, sort_keys=True))
-            print("CANDIDATE-DEFECT: property=%s key=%s replay=%s %s" % (pid, key, path, what), flush=True)
-            candidates[key] = {"what": what, "replay": path, "mismatch_lines": n}
-            continue
         if nviol < 5:
             if ctx.violation("implementation differs from what %s demands (%d mismatch lines, first): %s" % (pid, n, (f.get("line") or "")[:400]), body, key=key):
                 nviol += 1
-    ctx.cov["candidate_defects_pending"] = candidates
     # ---- the tie itself
     if model_mm:
         f = next((v for (k, kk), v in first.items() if k == "model"), {})
